@@ -10,6 +10,14 @@ SAN = 'clang ASan+UBSan (-fno-sanitize-recover) and -D_GLIBCXX_ASSERTIONS are tr
 
 PROPS = {}
 
+def et_unit(pid, prefix, qscale=1.0, tscale=6.0):
+    """expression-template scalar sweep (GMP mpq_class used directly as the scalar type), sub-check selected by prefix"""
+    a = ['--property', pid] + (['--prefix', prefix] if prefix else [])
+    return dict(target=T('h_etscalar'), quick=dict(args=a, scale=qscale), thorough=dict(args=a, scale=tscale, shards=4))
+
+ET_RULE = (' Expression-template scalar unit (h_etscalar.cpp): the same operation family with GMP mpq_class used DIRECTLY as the scalar type - an exact type that meets every documented requirement and whose operators return unevaluated expression objects holding references (like the boost::multiprecision types the README advertises) - '
+           'against the reference model; a library statement that keeps such an expression in an `auto` variable or returns it from a deduced-return lambda is bit-identical for built-in floats and for the plain archetype and shows up here as a stale value or an ASan use-after-scope report.')
+
 PROPS['C13'] = dict(
     units=[dict(target=T('h_support'),
                 quick=dict(args=['--maxn', '6'], scale=1.0),
@@ -28,7 +36,7 @@ PROPS['C13'] = dict(
 )
 
 PROPS['C02'] = dict(
-    units=[dict(target=T('h_eval', parts=4), quick=dict(scale=1.0), thorough=dict(scale=6.0, shards=16)),
+    units=[et_unit('C02', 'et-eval'), dict(target=T('h_eval', parts=4), quick=dict(scale=1.0), thorough=dict(scale=6.0, shards=16)),
            dict(target=T('h_hist', parts=4), quick=dict(args=['--focus', 'C02'], scale=0.5, shards=4), thorough=dict(args=['--focus', 'C02', '--max-size', '200'], scale=3.0, shards=16))],
     rule=('random splines (grid 2..10 points incl. far-from-origin and strongly non-uniform, every window kind, order 0..6 and 10, Q / float / double / long double) x '
           'abscissae: every grid point, one generated interior point per grid interval, both support ends and points 1/1000 inside/outside them, points outside the grid, '
@@ -55,7 +63,7 @@ PROPS['C15'] = dict(
     assumptions=[EXACT, SAN],
 )
 PROPS['C03'] = dict(
-    units=[dict(target=T('h_arith', parts=4), quick=dict(scale=1.0), thorough=dict(scale=5.0, shards=16))],
+    units=[et_unit('C03', 'et-arith'), dict(target=T('h_arith', parts=4), quick=dict(scale=1.0), thorough=dict(scale=5.0, shards=16))],
     rule=('(a) operand pairs, orders (0..3)^2, constructed placement classes, rational coefficients/scalars: a+b, b+a, a-b, b-a, a*b, b*a, a*c, c*a, a/c, -a, a*0, += -= *= /=, self += / -=, cross-order assignment; '
           '(b) linearCombination over 1..6 splines (both overloads, vs operator chain); (c) in-place histories of 1..10 steps on an order-3 accumulator with the model updated alongside; '
           '(d) high orders (10,10), (10,2), (7,4) - the shipped examples use order 10: + - * += -=, Dx<3>, X<2>, commutator, linear / bilinear forms and evaluation, all exact. '
@@ -67,7 +75,7 @@ PROPS['C03'] = dict(
     assumptions=[EXACT, SAN],
 )
 PROPS['C04'] = dict(
-    units=[dict(target=T('h_prim', parts=6), quick=dict(scale=1.0), thorough=dict(scale=6.0, shards=16))],
+    units=[et_unit('C04', 'et-operators'), dict(target=T('h_prim', parts=6), quick=dict(scale=1.0), thorough=dict(scale=6.0, shards=16))],
     rule=('full template matrix Dx<n> n=0..5 x order 0..5, X<n> n=0..5 x order 0..4, identity x order 0..5 (per-combination counters in per_subcheck.classes), random grids incl. far from origin, '
           'all window kinds, Q (all), double / long double (n <= 3, dyadic inputs for which the operation is exact) and the integer-like scalar `long` (n <= 3, integer grid points of equal parity and integer coefficients, so every quantity the library forms is an integer) and GMP mpq_class used directly as the scalar (an exact type whose operators return expression templates). Oracle: n-fold derivative / multiplication by x^n of the absolute-basis model, result order, same window, '
           'zero outside the operand, identity == operand. Non-trivial: non-zero function and (n >= order-1, or |x| > 4, or strict sub-window, or n >= 2 for X).'),
@@ -78,7 +86,7 @@ PROPS['C04'] = dict(
 )
 
 PROPS['C01'] = dict(
-    units=[dict(target=T('h_gen', parts=4), quick=dict(scale=1.0), thorough=dict(scale=4.0, shards=16))],
+    units=[et_unit('C01', 'et-generator'), dict(target=T('h_gen', parts=4), quick=dict(scale=1.0), thorough=dict(scale=4.0, shards=16))],
     rule=('random knot vectors by shape (random with 35% repeated knots, simple, clamped, multiplicity > p+1 at an end, multiplicity p+2.. inside, several interior repeats 2..p+2, shortest m=p+1/p+2, far from origin with minimal gaps) '
           'x order p=0..6 x {Q, float, double, long double} x three routes (knots only, knots + separately built equal grid, free function). Oracle: Cox-de Boor recursion on the reference model; '
           'Q: exact equality on every grid interval, zero outside [t_i,t_{i+p+1}], partition of unity inside [t_p,t_{m-p-1}], C^{p-mu} at every knot and a jump in derivative p-mu+1 for some function at interior knots; '
@@ -337,7 +345,7 @@ EXPR_RULE = ('expression programs: operator expression TYPES are sampled by gene
              'thorough adds 96 fresh expression types from VERIF_SEED. Per expression: random grids (2..9 points, incl. far from origin / non-uniform), operand orders 0..3, factor splines of orders 0,1,2 placed relative to the operand by constructed class '
              '(covers, strictly inside, ENDS inside, starts inside, touching, gap, interval-free). Library instantiated with the exact scalar Q. ')
 PROPS['C05'] = dict(
-    units=cat_units('apply', 'C05', 1.0, 6.0) + [gen_unit('apply', 'C05')],
+    units=cat_units('apply', 'C05', 1.0, 6.0) + [et_unit('C05', 'et-operators'), gen_unit('apply', 'C05')],
     rule=EXPR_RULE + 'Oracle (C05): AST interpreter over the reference model implementing exactly the equations of the statement; equality on every grid interval. Non-trivial: >= 2 internal nodes and operand with >= 1 interval. Distinct = distinct case text; counters per production, factor placement and operand order.',
     technique='generated C++ expression programs (grammar-based program generation) driven by rapidcheck inputs, compared with an AST interpreter over an exact reference model',
     engine='exprgen.py + rapidcheck',
@@ -346,7 +354,7 @@ PROPS['C05'] = dict(
     assumptions=[EXACT, SAN],
 )
 PROPS['C06'] = dict(
-    units=cat_units('bilinear', 'C06', 1.0, 6.0) + [forms_unit('bilinear', 'C06'), gen_unit('bilinear', 'C06')],
+    units=cat_units('bilinear', 'C06', 1.0, 6.0) + [forms_unit('bilinear', 'C06'), et_unit('C06', 'et-forms'), gen_unit('bilinear', 'C06')],
     rule=EXPR_RULE + 'Oracle (C06): operator pairs (expression i with partner pi(i); identity with itself) x spline pairs by constructed placement class x four (order_a, order_b) combinations per pair; expected value = exact integral of the product of the two interpreted functions (antiderivative in Q); '
          'zero without common interval; B{O1,O2}(a,b) == B{O2,O1}(b,a); linearity with generated rational alpha, beta and a second operand; ScalarProduct == B{I,I}. Non-trivial: >= 1 common interval and (non-identical windows or different orders or non-identity operators). Kernel parity (odd/even sizes) counted. Form objects (h_forms.cpp): forms built from NAMED operators (lvalue, const lvalue, local of a function) and evaluated after the variable was reassigned; form(s, s) with one spline object on both sides; two operators of one C++ type with different run-time state (8 families), all against the exact integral.',
     technique='generated C++ expression programs + rapidcheck inputs; oracle = exact antiderivative of the product polynomial, metamorphic relations (swap, bilinearity)',
@@ -356,7 +364,7 @@ PROPS['C06'] = dict(
     assumptions=[EXACT, SAN],
 )
 PROPS['C07'] = dict(
-    units=cat_units('linform', 'C07', 1.0, 6.0) + [forms_unit('linform', 'C07'), gen_unit('linform', 'C07')],
+    units=cat_units('linform', 'C07', 1.0, 6.0) + [forms_unit('linform', 'C07'), et_unit('C07', 'et-forms'), gen_unit('linform', 'C07')],
     rule=EXPR_RULE + 'Oracle (C07): LinearForm{O}(a) == exact integral of the interpreted function over a\'s support (zero for interval-free a), operator() == evaluate(), == LinearForm{}(O a); and for operator pairs and spline pairs of all placements B{O1,O2}(a,b) == LinearForm{}((O1 a)*(O2 b)) == exact integral. '
          'Non-trivial: >= 1 interval and kernel size >= 2 (linear form); >= 1 common interval (product identity). Both kernel parities counted. Form objects (h_forms.cpp): the product identity with ONE spline object on both sides and same-type operators of different state (8 families); LinearForm built from named operators and evaluated after reassignment.',
     technique='generated C++ expression programs + rapidcheck inputs; oracle = exact integral from the reference model and agreement with the bilinear form',
@@ -367,7 +375,7 @@ PROPS['C07'] = dict(
 )
 
 PROPS['C12'] = dict(
-    units=[dict(target=T('h_interp', parts=4), quick=dict(scale=1.0), thorough=dict(scale=5.0, shards=16))],
+    units=[et_unit('C12', 'et-interpolation'), dict(target=T('h_interp', parts=4), quick=dict(scale=1.0), thorough=dict(scale=5.0, shards=16))],
     rule=('random abscissa sets: windows of >= 2 points (whole grid or strict sub-window) of grids with 2..9 points incl. two-point inputs and gap ratios up to 128; ordinates; order 1..5; boundary sets: default (35%) or generated (node, derivative 1..order, value) tuples incl. duplicates. '
           'The exact solve (Gaussian elimination in Q) decides unique solvability; exactly singular problems are discarded and counted. Oracle A (interpolate<Q,order,exact solver>): support == input window; both adjacent pieces take y_i at x_i; derivatives 1..order-1 continuous at interior nodes; '
           'every boundary row holds; the default set is {(first,1),(last,1),(first,2),...} = 0; all exact, checked both through the row formulation and through the absolute-basis pieces. Oracle B (interpolateUsingEigen<double|long double>): the same conditions, residuals evaluated exactly from the returned coefficients, '
@@ -447,6 +455,7 @@ PROPS['C17'] = dict(
 def _c19_units():
     a = lambda *x: ['--property', 'C19'] + list(x)
     us = [dict(target=T('h_archetype', deps=['harness/common/qsolver.h']), quick=dict(args=a(), scale=1.0), thorough=dict(args=a(), scale=6.0, shards=4)),
+          et_unit('C19', '', 1.0, 4.0),
           dict(target=T('h_archetype_static', kind='plain', extra_flags=['-O1']), quick=dict(args=a(), scale=1.0), thorough=dict(args=a(), scale=1.0)),
           dict(target=T('h_gen', parts=4), quick=dict(args=a('--prefix', 'exact'), scale=0.25), thorough=dict(args=a('--prefix', 'exact'), scale=1.0, shards=4)),
           dict(target=T('h_arith', parts=4), quick=dict(args=a(), scale=0.2), thorough=dict(args=a(), scale=1.0, shards=4)),
@@ -510,3 +519,6 @@ PROPS['C20'] = dict(
     level_note='Admissible inputs as in DESIGN 6.7. Tolerances calibrated on the repaired tree (metrics_max reports the observed maxima on every run).',
     assumptions=[SAN, 'Eigen 3 as installed is trusted'],
 )
+
+for _p in ('C01', 'C02', 'C03', 'C04', 'C05', 'C06', 'C07', 'C12', 'C19'):
+    PROPS[_p]['rule'] = PROPS[_p]['rule'] + ET_RULE
